@@ -17,6 +17,11 @@
 #include <sys/resource.h>
 #include <time.h>
 #include <unistd.h>
+#include <ctype.h>
+#if defined(__SANITIZE_ADDRESS__)
+extern "C" void __asan_describe_address(void* addr);
+extern "C" void __sanitizer_print_stack_trace(void);
+#endif
 
 #include <algorithm>
 #include <cstdlib>
@@ -55,6 +60,7 @@ struct State {
     struct Fd { bool used = false; std::string path; std::string cls; };
     std::vector<Fd> fds = std::vector<Fd>(4096);
     // clock
+    std::function<void(const std::string&, const std::string&, const std::string&)> hook; bool in_hook = false;
     bool clk_on = false;
     double wall = 1.6e9;
     long clk_reads = 0;
@@ -76,6 +82,14 @@ std::string rel(const char* path) {
 }
 
 long long real_tell(int fd) { return static_cast<long long>(syscall(SYS_lseek, fd, 0L, SEEK_CUR)); }
+
+void run_hook(const char* kind, const std::string& cls, const std::string& path) {
+    State& s = S();
+    if (!s.hook || s.in_hook || s.dead || s.pass) return;
+    s.in_hook = true;
+    try { s.hook(cls, kind, path); } catch (...) { s.in_hook = false; throw; }
+    s.in_hook = false;
+}
 
 void log_event(const char* kind, const std::string& cls, const std::string& path, long long off, long long len, std::uint64_t dig) {
     State& s = S();
@@ -147,6 +161,7 @@ namespace fs {
 
 const std::string& root() { return S().root; }
 void passthrough(bool on) { S().pass = on; }
+void set_hook(std::function<void(const std::string&, const std::string&, const std::string&)> h) { S().hook = std::move(h); }
 bool in_scope(const char* path) {
     State& s = S();
     if (!s.active || s.pass || !path || !*path) return false;
@@ -253,7 +268,7 @@ void begin_run(const std::string& root_dir) {
     s.active = true; s.dead = false; s.enospc = false; s.op = 0; s.seq = 0; s.log = Hash64();
     s.faults.clear(); s.events.clear(); s.counters.clear(); s.mut.clear(); s.rd.clear();
     for (auto& f : s.fds) f.used = false;
-    s.wall = 1.6e9; s.clk_reads = 0; s.clk_on = true;
+    s.wall = 1.6e9; s.clk_reads = 0; s.clk_on = true; s.hook = nullptr; s.in_hook = false;
 }
 void end_run(bool remove) {
     State& s = S();
@@ -387,6 +402,7 @@ ssize_t write(int fd, const void* buf, size_t n) {
     ssize_t r = real(fd, buf, n);
     sim::log_event("write", e.cls, e.path, off, r, sim::digest(buf, r > 0 ? static_cast<size_t>(r) : 0));
     ++s.counters["sys.write"];
+    { const std::string c2 = e.cls, p2 = e.path; sim::run_hook("write", c2, p2); }
     return r;
 }
 
@@ -451,6 +467,7 @@ int rename(const char* from, const char* to) {
     ++S().counters["sys.rename"];
     int r = real(from, to);
     if (oc == 2) sim::die("crash_after_rename");
+    sim::run_hook("rename", cls, q);
     return r;
 }
 
@@ -465,6 +482,7 @@ int unlink(const char* path) {
     ++S().counters["sys.unlink"];
     int r = static_cast<int>(syscall(SYS_unlink, path));
     if (oc == 2) sim::die("crash_after_unlink");
+    sim::run_hook("unlink", cls, p);
     return r;
 }
 int remove(const char* path) {
@@ -501,6 +519,48 @@ int gettimeofday(struct timeval* tv, void*) {
     struct timespec ts; syscall(SYS_clock_gettime, CLOCK_REALTIME, &ts);
     tv->tv_sec = ts.tv_sec; tv->tv_usec = ts.tv_nsec / 1000;
     return 0;
+}
+
+
+// ---- string-to-number over-read detector ---------------------------------------------------
+// ASan does not intercept strtof/strtod; a call on an unterminated heap buffer reads on into whatever follows it and the
+// parsed number then depends on process history (DESIGN 3.1, "heap garbage").  Under ASan the scan is checked against the
+// shadow memory so that such a read is a deterministic, replayable sanitizer-class failure.
+#if defined(__SANITIZE_ADDRESS__)
+extern "C" int __asan_address_is_poisoned(void const volatile* addr);
+static void check_number_string(const char* s, const char* fn) {
+    const char* p = s;
+    bool in_number = false;
+    for (int n = 0; n < 4096; ++n, ++p) {
+        if (__asan_address_is_poisoned(p)) {
+            fprintf(stderr, "==%d==ERROR: AddressSanitizer: %s-unterminated-buffer-overread: the string handed to %s is not terminated inside its allocation (read %d bytes)\n", getpid(), fn, fn, n);
+            void* frames[24]; (void)frames;
+            __asan_describe_address(const_cast<char*>(p));
+            __sanitizer_print_stack_trace();
+            fflush(stderr);
+            _exit(77);
+        }
+        const unsigned char c = static_cast<unsigned char>(*p);
+        if (c == 0) return;
+        if (isspace(c)) { if (in_number) return; continue; }      // leading blanks are skipped, a blank after the number ends the scan
+        in_number = true;
+        const bool numberish = isdigit(c) || c == '+' || c == '-' || c == '.' || strchr("eExXpPaAbBcCdDfFiInNtTyY()", c);
+        if (!numberish) return;     // strtof stops here without looking further
+    }
+}
+#else
+static void check_number_string(const char*, const char*) {}
+#endif
+
+float strtof(const char* s, char** end) {
+    static auto real = sim::real_fn<float (*)(const char*, char**)>("strtof");
+    check_number_string(s, "strtof");
+    return real(s, end);
+}
+double strtod(const char* s, char** end) {
+    static auto real = sim::real_fn<double (*)(const char*, char**)>("strtod");
+    check_number_string(s, "strtod");
+    return real(s, end);
 }
 
 } // extern "C"
